@@ -82,7 +82,7 @@ OPS = ["extract", "cast_text", "cast_int", "cast_float", "cast_number", "cast_bo
 
 def gen_cases(tier: str, seed: int):
     r = random.Random(f"{seed}:C11")
-    n = 3000 if tier == "quick" else 60000
+    n = 9000 if tier == "quick" else 120000
     for i in range(n):
         x = r.random()
         if x < 0.06:
